@@ -107,6 +107,20 @@ CHECKS = {
              'the generated named-constant tables, %d %x %o %b, other dump_* functions.',
         technique='bounded unwinding (CBMC) of C lowered from the real C++ per run against a scanner-model postcondition',
     ),
+    'C01': dict(
+        category='other',
+        text='BOUNDED slice: ALT (op_merge::next driven together with the real op_tine::next) and || (op_or::next) lowered per run from '
+             '/repo/libzwerg/op.cc. Two branches, each an abstract well-behaved operator chain yielding 0..2 stacks per input (chosen independently '
+             'per input and branch); upstream yields 1-2 stacks, reports exhaustion, is fed one more stack, reports exhaustion. ALT: for every input '
+             'every branch yields all its results exactly once, a single input is answered left to right, and a stack fed after an earlier '
+             'exhaustion is treated like any other (the pre-fix tree failed exactly this; fix 9db1e2e). ||: per input exactly the results of '
+             'the first branch that yields anything for that input, whatever earlier inputs chose. Every pull hands on exactly the stack a branch yielded.',
+        design_ref='DESIGN.md section 4 C01',
+        note='bounded, never counted as proved. SLICE: concatenation, [ ], if-then-else, format strings, build.cc wiring not covered (op_subx under C04, '
+             'closures under C10). Trusted: cxx2c lowering; the handle model of stacks, move-nulls-source for unique_ptr, std::vector/std::all_of/scon models; '
+             'the abstract branch operators.',
+        technique='bounded unwinding (CBMC, unwinding assertions) of C lowered from the real C++ per run, against logged-yield postconditions',
+    ),
     'C03': dict(
         category='proof',
         text='Slice: the data structures and operators that carry a name from its binder to its readers. bindings::bind, bindings::find, '
